@@ -33,6 +33,13 @@ func closedClass(err error) bool {
 }
 
 func c16Scenario(t *testing.T, p *world.PKI, v13 bool, ops string, clientSide bool, seed uint64) func(x *Exec) (string, string) {
+	return c16ScenarioAt(t, p, v13, ops, clientSide, -1, seed)
+}
+
+// c16ScenarioAt: pos >= 0 starts the race in the middle of the handshake, after pos network deliveries (the
+// endpoint's Handshake call is pending); op 'd' hands the next datagram in flight for the endpoint to it when
+// the race starts, so that Close meets the handshake state machine and the read loop at work.
+func c16ScenarioAt(t *testing.T, p *world.PKI, v13 bool, ops string, clientSide bool, pos int, seed uint64) func(x *Exec) (string, string) {
 	return func(x *Exec) (viol, outcome string) {
 		bad := func(f string, a ...any) {
 			if viol == "" {
@@ -47,16 +54,30 @@ func c16Scenario(t *testing.T, p *world.PKI, v13 bool, ops string, clientSide bo
 				return
 			}
 			n := world.NewNet(w, world.ClientAddr, nil)
-			if err := n.Pump(20*time.Second, pr.BothDone); err != nil || !pr.BothOK() {
-				bad("HARNESS: handshake failed")
-				return
-			}
-			n.Flush()
-			w.CIDLenHint = pr.CIDLenFor
 			e, peer := pr.S, pr.C
 			if clientSide {
 				e, peer = pr.C, pr.S
 			}
+			mid := pos >= 0
+			if mid {
+				for i := 0; i < pos && !pr.BothDone(); i++ {
+					if !n.Step() {
+						break
+					}
+				}
+				if e.HS.Done() {
+					outcome = "position-beyond-handshake"
+					pr.CloseAll()
+					return
+				}
+			} else {
+				if err := n.Pump(20*time.Second, pr.BothDone); err != nil || !pr.BothOK() {
+					bad("HARNESS: handshake failed")
+					return
+				}
+				n.Flush()
+			}
+			w.CIDLenHint = pr.CIDLenFor
 			dec := pr.NewDecoder()
 			dec.Poll()
 			// pending Read (started natively: it blocks on the decrypted channel, not on a mutex)
@@ -79,6 +100,16 @@ func c16Scenario(t *testing.T, p *world.PKI, v13 bool, ops string, clientSide bo
 					peerCN = d.Data
 				}
 			}
+			var next []byte
+			if strings.Contains(ops, "d") {
+				for _, d := range w.InFlight() {
+					if d.Dst == e.Addr {
+						w.Take(d)
+						next = d.Data
+						break
+					}
+				}
+			}
 			from := w.EmittedCount()
 			w.NoSkew = true
 			x.Start()
@@ -89,6 +120,10 @@ func c16Scenario(t *testing.T, p *world.PKI, v13 bool, ops string, clientSide bo
 					opsRun = append(opsRun, w.Go(fmt.Sprintf("Close#%d", i), func(*world.Op) error { return e.Conn.Close() }))
 				case 'w':
 					opsRun = append(opsRun, w.Go("Write", func(*world.Op) error { _, err := e.Conn.Write([]byte("e2-data")); return err }))
+				case 'd':
+					if next != nil {
+						w.Push(peer.Addr, e.Addr, next)
+					}
 				case 'p':
 					if peerCN != nil {
 						w.Push(peer.Addr, e.Addr, peerCN)
@@ -125,6 +160,13 @@ func c16Scenario(t *testing.T, p *world.PKI, v13 bool, ops string, clientSide bo
 				}
 				res = append(res, fmt.Sprintf("%s=%v", op.Name, err == nil))
 			}
+			if mid {
+				if d, err := e.HS.Result(); !d {
+					bad("the pending Handshake was not released by Close")
+				} else if err != nil && !closedClass(err) && !strings.Contains(err.Error(), "context canceled") {
+					bad("the pending Handshake returned %v after Close (want a closed error)", err)
+				}
+			}
 			if rd != nil {
 				if d, err := rd.Result(); !d {
 					bad("pending Read not unblocked by Close")
@@ -145,7 +187,7 @@ func c16Scenario(t *testing.T, p *world.PKI, v13 bool, ops string, clientSide bo
 				if alerts > 1 {
 					bad("%d close_notify records emitted by one endpoint (at most once)", alerts)
 				}
-				if alerts == 0 && peerCN == nil {
+				if alerts == 0 && peerCN == nil && !mid {
 					// (when the peer's close_notify is already arriving the session is no longer open: the reply may
 					// lose the race against the application's Close shutting the socket)
 					bad("no close_notify emitted although the application closed an established, open session")
@@ -191,6 +233,35 @@ func TestC16E2(t *testing.T) {
 					}
 					return o
 				}})
+			}
+		}
+	}
+	// Close in the middle of the handshake, racing the next handshake datagram
+	for _, v13 := range []bool{false, true} {
+		for _, pos := range []int{1, 3, 4, 5} {
+			for _, ops := range []string{"dx", "dxx"} {
+				for _, clientSide := range []bool{true, false} {
+					v13, pos, ops, clientSide := v13, pos, ops, clientSide
+					ver, side := "12", "server"
+					if v13 {
+						ver = "13"
+					}
+					if clientSide {
+						side = "client"
+					}
+					b := bound - 1
+					cases = append(cases, run.Case{ID: fmt.Sprintf("e2/%s/mid%d-%s/%s/b%d", ver, pos, ops, side, b), Run: func(t *testing.T) run.Outcome {
+						res := Explore(b, 6000, c16ScenarioAt(t, p, v13, ops, clientSide, pos, env.Seed+1))
+						o := run.Outcome{Incomplete: res.Capped, NonTrivial: res.Executions > 1, Evals: res.Executions, Distinct: len(res.Outcomes),
+							Class:    fmt.Sprintf("mid schedules=%s outcomes=%d capped=%v", bucket(res.Executions), len(res.Outcomes), res.Capped),
+							Counters: map[string]int{"e2_executions": res.Executions, "e2_max_sched_points": res.MaxSteps},
+							Sample:   map[string]any{"version": ver, "ops": ops, "side": side, "position": pos, "preemption_bound": b, "schedules": res.Executions, "outcomes": res.Outcomes}}
+						if res.Violation != "" {
+							o.Violation = fmt.Sprintf("E2 version=%s position=%d ops=%s side=%s bound=%d: %s; schedule: %s; choices=%v", ver, pos, ops, side, b, res.Violation, res.Schedule, res.Choices)
+						}
+						return o
+					}})
+				}
 			}
 		}
 	}
